@@ -661,15 +661,17 @@ class Runner(object):
         sim = self.sim
         views = {}
         for v in self.V:
-            if v in sim.objs and v not in self.fresh:
+            if v in sim.objs:
+                # a running node: its log as it is; a node that has not ticked since its restart has not loaded its
+                # dump yet (applied = 1): the dump covers what it covered when the node was killed
                 lg = sim.log_of(v)
-                views[v] = (set((x[0], x[1]) for x in lg), lg[0][0], sim.objs[v].raftLastApplied)
+                la = sim.objs[v].raftLastApplied
+                if v in self.fresh:
+                    la = max(la, self.fresh[v].get("covered", 0))
+                views[v] = (set((x[0], x[1]) for x in lg), lg[0][0], la)
             elif v in self.before:
                 b = self.before[v]
                 views[v] = (set((x[0], x[1]) for x in b["log"]), b["log"][0][0] if b["log"] else 1, b["covered"])
-            elif v in sim.objs:
-                lg = sim.log_of(v)
-                views[v] = (set((x[0], x[1]) for x in lg), lg[0][0], 1)
         self.cov["restart:committed-positions-majority-checked"] += len(self.committed)
         for idx in sorted(self.committed):
             term = self.committed[idx][0]
@@ -1047,6 +1049,77 @@ def base_conflict(r):
     return {"leader": N, "followers": [i for i in V if i != N], "old": L}
 
 
+def base_snapshot_late(r):
+    """the follower that installed the leader's snapshot runs on for more than a second (the one-second timer rewrites
+    its .meta) without any change of term or vote; kills from there on (C07: term and vote must still be in .meta)"""
+    info = base_snapshot(r)
+    if not info:
+        return {}
+    info["window_from"] = len(r.events)
+    r.rounds(18)
+    r.ev("submit", info["leader"], "late")
+    r.rounds(3)
+    return info
+
+
+def base_snapshot_partial(r):
+    """a follower that missed entries gets only the FIRST chunks of the leader's snapshot (messages that verify
+    nothing of its log, from a leader whose commit index is far ahead), runs on for more than a second (timer: .meta
+    rewritten) and is killed there; the transfer completes afterwards"""
+    V = r.V
+    r.ev("connect_all")
+    L = r.elect()
+    if L is None:
+        return {}
+    F = [i for i in V if i != L]
+    lag = F[-1]
+    rest = [i for i in V if i != lag]
+    r.ev("submit", L, "p0")
+    r.rounds(3)
+    for j in rest:
+        r.ev("cut", lag, j)
+        r.ev("notice", lag, j)
+        r.ev("notice", j, lag)
+    for k in range(1, 7):
+        r.ev("submit", L, "p%d" % k)
+    r.rounds(3, among=rest)
+    r.ev("compact", L)
+    r.rounds(2, among=rest)
+    r.ev("submit", L, "p7")
+    r.rounds(2, among=rest)
+    if r.sim.leader(rest) != L:
+        return {}
+    r.ev("connect", lag, L)
+    chunks = 0
+    for _ in range(40):
+        r.ev("tick", L, 0.0625)
+        q = r.sim.chan[(L, lag)]
+        while q and chunks < 2:
+            m = q[0]
+            r.ev("deliver", L, lag)
+            if m.get("serialized") is not None:
+                chunks += 1
+        while r.sim.chan[(lag, L)]:
+            r.ev("deliver", lag, L)
+        if chunks >= 2:
+            break
+    if chunks < 2 or r.sim.objs[lag].raftLastApplied >= r.sim.objs[L].raftCommitIndex:
+        return {}
+    r.ev("tick", lag, 1.0625)                 # the one-second timer stores the commit index
+    r.ev("tick", lag, 0.0625)
+    info = {"leader": L, "followers": F, "lag": lag, "window_from": len(r.events)}
+    info["window_to"] = len(r.events) + 6
+    r.ev("tick", lag, 0.0625)
+    r.ev("tick", L, 0.0625)
+    for j in rest:
+        if j != L:
+            r.ev("connect", lag, j)
+    r.rounds(8)
+    r.ev("submit", L, "p8")
+    r.rounds(3)
+    return info
+
+
 def base_minority(r):
     """a follower installs the leader's snapshot, then the OTHER follower is cut off: the next commands are committed
     on the strength of the first follower's acknowledgement alone; then the leader is cut off for good and the two
@@ -1138,14 +1211,17 @@ def base_members(r):
 
 
 BASES = {"vote": base_vote, "replication": base_replication, "snapshot": base_snapshot, "conflict": base_conflict,
-         "members": base_members, "minority": base_minority}
+         "members": base_members, "minority": base_minority, "snapshot_late": base_snapshot_late,
+         "snapshot_partial": base_snapshot_partial}
 # (conflict: one batch per tick — with several pipelined batches and a conflicting LAST entry on the follower
 #  the real code alternates between two reset replies forever; a progress matter (C05), see notes/restart.md)
 BASE_CONF = {"vote": {}, "replication": {"appendEntriesBatchSizeBytes": 24},
              "snapshot": {"logCompactionBatchSize": 16, "appendEntriesBatchSizeBytes": 24},
              "conflict": {"appendEntriesBatchSizeBytes": 2 ** 16},
              "members": {"dynamicMembershipChange": True, "appendEntriesBatchSizeBytes": 64},
-             "minority": {"logCompactionBatchSize": 16, "appendEntriesBatchSizeBytes": 24}}
+             "minority": {"logCompactionBatchSize": 16, "appendEntriesBatchSizeBytes": 24},
+             "snapshot_late": {"logCompactionBatchSize": 16, "appendEntriesBatchSizeBytes": 24},
+             "snapshot_partial": {"logCompactionBatchSize": 16, "appendEntriesBatchSizeBytes": 2 ** 16}}
 
 
 def record_base(repo, name, spec, tmpdir):
@@ -1199,6 +1275,7 @@ def directed_items(repo, name, spec, tmpdir, stride=1, offset=0, kinds=("between
     n = 0
     picked = [0]
     p_from = info.get("window_from", 0)
+    p_to = info.get("window_to", len(S))
     must = info.get("lag") if "window_from" in info else None
 
     def skip(n):
@@ -1207,7 +1284,7 @@ def directed_items(repo, name, spec, tmpdir, stride=1, offset=0, kinds=("between
         picked[0] += 1
         return picked[0] % shard[1] != shard[0]
     if "between" in kinds:
-        for p in range(p_from, len(S) + 1):
+        for p in range(p_from, p_to + 1):
             for label, vs in victim_sets(V, info):
                 if must is not None and must not in vs:
                     continue
@@ -1223,7 +1300,7 @@ def directed_items(repo, name, spec, tmpdir, stride=1, offset=0, kinds=("between
                     out.append(("%s@%d/%s" % (name, p, label), S[:p] + ins + S[p:]))
     if "at-send" in kinds:
         for p, e in enumerate(S):
-            if e[0] not in ("tick", "deliver") or not sends[p] or p < p_from:
+            if e[0] not in ("tick", "deliver") or not sends[p] or p < p_from or p > p_to:
                 continue
             node = e[1] if e[0] == "tick" else e[2]
             for nth in range(1, sends[p] + 1):
@@ -1333,9 +1410,13 @@ def plan(ctx):
         # commit statements across restarts (C04's own components never restart a node)
         quick = ctx.tier == "quick"
         kinds = ("between", "at-send", "repeat")
+        items.append(("directed", "snapshot_partial", 3, True, 1, ctx.seed, ("between", "at-send"), (0, 1)))
         if quick:          # every kill position of the window of `minority`, in 4 shards
             for j in range(4):
                 items.append(("directed", "minority", 3, True, 1, ctx.seed, ("between",), (j, 4)))
+        else:
+            items.append(("directed", "snapshot_partial", 3, False, 1, ctx.seed, ("between", "at-send"), (0, 1)))
+            items.append(("directed", "snapshot_partial", 5, True, 1, ctx.seed, ("between", "at-send"), (0, 1)))
         for (name, n, dump, qs, ts, K) in (("minority", 3, True, 0, 1, 12), ("minority", 3, False, 4, 1, 12),
                                            ("snapshot", 3, True, 12, 1, 12), ("replication", 3, True, 16, 1, 12),
                                            ("conflict", 3, False, 12, 1, 12), ("minority", 5, True, 0, 2, 16),
@@ -1366,6 +1447,8 @@ def plan(ctx):
                 items.append(("directed", name, n, dump, t_stride, off, kinds, (j, t_shards)))
     if ctx.pid == "C07":
         # elections are what C07 is about: every vote variant; the other families thinned in the quick tier
+        fam("snapshot_late", 3, True, 2, 1, VOTE, 4)
+        fam("snapshot_late", 3, False, 0, 1, VOTE, 4)
         fam("vote", 3, False, 1, 1, VOTE, 2)
         fam("vote", 3, True, 1, 1, VOTE, 2)
         fam("vote", 5, True, 5, 1, VOTE, 12)
@@ -1379,6 +1462,9 @@ def plan(ctx):
         fam("snapshot", 3, False, 0, 1, ALL, 12)
         fam("conflict", 5, False, 0, 2, ALL, 16)
     else:
+        fam("snapshot_partial", 3, True, 1, 1, VOTE, 1)
+        fam("snapshot_partial", 3, False, 0, 1, VOTE, 1)
+        fam("snapshot_late", 3, True, 6, 1, VOTE, 4)
         fam("replication", 3, True, 4, 1, ALL, 12)
         fam("replication", 2, False, 3, 1, ALL, 4)
         fam("snapshot", 3, True, 4, 1, ALL, 12)
